@@ -126,11 +126,13 @@ def kw_value_to_string(value):
 
 def kw_parameters_to_string(params):
     # text of a `key = value, ...` list
-    from mindsdb_sql.parser.ast.select.identifier import Identifier
+    from mindsdb_sql.parser.ast.select.identifier import Identifier, name_to_string
 
     items = []
     for key, value in params.items():
         if not isinstance(key, Identifier):
             key = Identifier(key)
-        items.append(f'{key.to_string()}={kw_value_to_string(value)}')
+        # keywords are common here (model, engine, database): quote only what can not be read back bare
+        key_str = '.'.join([name_to_string(part) if isinstance(part, str) else str(part) for part in key.parts])
+        items.append(f'{key_str}={kw_value_to_string(value)}')
     return ', '.join(items)
